@@ -251,6 +251,14 @@ func vfGenStallSpec(idx int, seed uint64) vfSpec {
 		}
 		sp.Link.LossPm = r.Pick(0, 0, 50)
 		sp.Link.HealUs = 0
+		// blocking writes through a zero-window episode: the gate must reopen when the probe that carried the last
+		// pending chunk is acknowledged
+		sp.A.BlockWrite = r.Intn(2) == 0
+		if sp.A.BlockWrite && r.Intn(2) == 0 {
+			for i := range sp.Streams {
+				sp.Streams[i].SizeMode = "tiny" // single-chunk messages: the probe is the whole message
+			}
+		}
 	case "zerowin-hole":
 		// one TSN is lost several times while everything behind it arrives: the receive buffer fills with data
 		// that cannot be delivered, the window closes, and the retransmitted gap filler must still be accepted
